@@ -78,10 +78,35 @@ def index_terms(exprs, limit=60):
     return list(found.values())[:limit]
 
 
+_hq2 = {}
+
+
+def _has_var_or_quant(e):
+    i = e.get_id()
+    r = _hq2.get(i)
+    if r is not None:
+        return r[0]
+    v = z3.is_quantifier(e) or any(_has_var_or_quant(c) for c in e.children())
+    _hq2[i] = (v, e)
+    return v
+
+
+_hv_cache = {}
+
+
 def _has_var(e):
+    i = e.get_id()
+    r = _hv_cache.get(i)
+    if r is not None:
+        return r[0]
     if z3.is_var(e):
-        return True
-    return any(_has_var(c) for c in e.children())
+        v = True
+    elif z3.is_quantifier(e):
+        v = True
+    else:
+        v = any(_has_var(c) for c in e.children())
+    _hv_cache[i] = (v, e)     # keep e alive so that the id is not reused
+    return v
 
 
 def var_kinds(q):
@@ -128,11 +153,92 @@ def instantiate(q, cands):
     return out
 
 
+_pn = [0]
+
+
+def prenex(f):
+    """f is in NNF (only positive universal quantifiers): pull every forall to the top. Valid because the domain is
+    non-empty and bound variables are renamed apart (each becomes a fresh constant that is re-abstracted)."""
+    consts = []
+
+    def strip(e):
+        if z3.is_quantifier(e):
+            if not e.is_forall():
+                return e     # existential left in place (snf should have removed them)
+            vs = []
+            for i in range(e.num_vars()):
+                _pn[0] += 1
+                vs.append(z3.Const(f"pn!{_pn[0]}", e.var_sort(i)))
+            consts.extend(vs)
+            return strip(z3.substitute_vars(e.body(), *reversed(vs)))
+        if z3.is_and(e):
+            return z3.And([strip(c) for c in e.children()])
+        if z3.is_or(e):
+            return z3.Or([strip(c) for c in e.children()])
+        return e
+
+    m = strip(f)
+    if not consts:
+        return m
+    return z3.ForAll(consts, m)
+
+
+_snf = None
+
+
+def normalize_nested(h):
+    """A hypothesis with quantifiers below the top level -> list of formulas, each quantifier-free or a top-level forall.
+    Uses z3's `snf` tactic (NNF + skolemisation: sound for hypotheses) followed by prenexing."""
+    global _snf
+    if _snf is None:
+        _snf = z3.Tactic("snf")
+    g = z3.Goal()
+    g.add(h)
+    try:
+        r = _snf(g)
+    except z3.Z3Exception:
+        return [h]
+    out = []
+    for sub in r:
+        for f in sub:
+            for x in distribute(f):
+                out.append(prenex(x))
+    return out
+
+
+def distribute(f, budget=200):
+    """NNF formula -> equivalent list of conjuncts, distributing `or` over `and` (bounded); quantifier bodies untouched."""
+    if z3.is_and(f):
+        out = []
+        for c in f.children():
+            out += distribute(c, budget)
+        return out
+    if z3.is_or(f):
+        parts = [distribute(c, budget) for c in f.children()]
+        total = 1
+        for p in parts:
+            total *= len(p)
+        if total > budget or total == 1:
+            return [f]
+        acc = [[]]
+        for p in parts:
+            acc = [a + [x] for a in acc for x in p]
+        return [z3.Or(a) if len(a) > 1 else a[0] for a in acc]
+    return [f]
+
+
 def prepare(hyps: List[z3.BoolRef], goal: z3.BoolRef, extra_terms=()):
     """-> list of pieces: dict(goal=..., hyps_qf=[...], hyps_full=[...])"""
-    flat = []
+    flat0 = []
     for h in hyps:
-        flatten_and(h, flat)
+        flatten_and(h, flat0)
+    flat = []
+    for h in flat0:
+        if z3.is_quantifier(h) or not _has_var_or_quant(h):
+            flat.append(h)
+        else:
+            for x in normalize_nested(h):
+                flatten_and(x, flat)
     ground, quants = [], []
     for h in flat:
         if z3.is_quantifier(h) and h.is_forall():
